@@ -67,6 +67,18 @@ func init() {
 	"(*sync.Pool).Get":       extPoolGet,
 	"(*sync.Pool).Put":       extPoolPut,
 
+	"math/bits.Len64":           func(fr *frame, a []value) value { return extBitsLen(fr, a[0], 64) },
+	"math/bits.Len32":           func(fr *frame, a []value) value { return extBitsLen(fr, a[0], 32) },
+	"math/bits.Len16":           func(fr *frame, a []value) value { return extBitsLen(fr, a[0], 16) },
+	"math/bits.Len8":            func(fr *frame, a []value) value { return extBitsLen(fr, a[0], 8) },
+	"math/bits.Len":             func(fr *frame, a []value) value { return extBitsLen(fr, a[0], 64) },
+	"math/bits.LeadingZeros64":  func(fr *frame, a []value) value { return extBitsLz(fr, a[0], 64) },
+	"math/bits.LeadingZeros32":  func(fr *frame, a []value) value { return extBitsLz(fr, a[0], 32) },
+	"math/bits.LeadingZeros":    func(fr *frame, a []value) value { return extBitsLz(fr, a[0], 64) },
+	"math/bits.TrailingZeros64": func(fr *frame, a []value) value { return extBitsTz(fr, a[0], 64) },
+	"math/bits.TrailingZeros32": func(fr *frame, a []value) value { return extBitsTz(fr, a[0], 32) },
+	"math/bits.OnesCount64":     func(fr *frame, a []value) value { return extBitsPop(fr, a[0], 64) },
+	"math/bits.OnesCount32":     func(fr *frame, a []value) value { return extBitsPop(fr, a[0], 32) },
 	"runtime.KeepAlive": func(fr *frame, a []value) value { return nil },
 	"runtime.GC":        func(fr *frame, a []value) value { return nil },
 	}
@@ -442,4 +454,79 @@ func (p *Program) intrinsic(name string) externalFn {
 		return func(fr *frame, a []value) value { return isSym(a[0].(iface).v) }
 	}
 	return nil
+}
+
+// ---- math/bits: table driven in the standard library, so summarised here ----
+
+func bitsLenTerm(i *interpreter, x *Term, w int) *Term {
+	tb := i.tb
+	// Len(x) = number of k in [0,w) with x >= 2^k, as an ite chain from the top
+	r := tb.Const(64, 0)
+	for k := 0; k < w; k++ {
+		r = tb.Ite(tb.Cmp(OpUle, tb.Const(w, uint64(1)<<uint(k)), x), tb.Const(64, uint64(k+1)), r)
+	}
+	return r
+}
+
+func extBitsLen(fr *frame, v value, w int) value {
+	if _, bitsv, ok := concKind(v); ok {
+		n := 0
+		for x := bitsv & mask(w); x != 0; x >>= 1 {
+			n++
+		}
+		return n
+	}
+	t, _ := fr.i.intTerm(v)
+	return mkInt(types.Int, bitsLenTerm(fr.i, t, w))
+}
+
+func extBitsLz(fr *frame, v value, w int) value {
+	if _, bitsv, ok := concKind(v); ok {
+		n := 0
+		for x := bitsv & mask(w); x != 0; x >>= 1 {
+			n++
+		}
+		return w - n
+	}
+	t, _ := fr.i.intTerm(v)
+	return mkInt(types.Int, fr.i.tb.Bin(OpSub, fr.i.tb.Const(64, uint64(w)), bitsLenTerm(fr.i, t, w)))
+}
+
+func extBitsTz(fr *frame, v value, w int) value {
+	if _, bitsv, ok := concKind(v); ok {
+		x := bitsv & mask(w)
+		if x == 0 {
+			return w
+		}
+		n := 0
+		for ; x&1 == 0; x >>= 1 {
+			n++
+		}
+		return n
+	}
+	t, _ := fr.i.intTerm(v)
+	tb := fr.i.tb
+	r := tb.Const(64, uint64(w))
+	for k := w - 1; k >= 0; k-- {
+		bit := tb.Cmp(OpEq, tb.Extract(t, k, k), tb.Const(1, 1))
+		r = tb.Ite(bit, tb.Const(64, uint64(k)), r)
+	}
+	return mkInt(types.Int, r)
+}
+
+func extBitsPop(fr *frame, v value, w int) value {
+	if _, bitsv, ok := concKind(v); ok {
+		n := 0
+		for x := bitsv & mask(w); x != 0; x &= x - 1 {
+			n++
+		}
+		return n
+	}
+	t, _ := fr.i.intTerm(v)
+	tb := fr.i.tb
+	r := tb.Const(64, 0)
+	for k := 0; k < w; k++ {
+		r = tb.Bin(OpAdd, r, tb.ZExt(tb.Extract(t, k, k), 64))
+	}
+	return mkInt(types.Int, r)
 }
